@@ -61,10 +61,156 @@ def run(ctx):
     ctx.guarded("R02.8", "fifo", lambda: fifo(ctx, "R02.8", "parsed_requests", {"push_back", "pop_front"}, floor=2))
     ctx.rule("R02.9", "recognised header values are interpreted through trim() and written as the header rules say (= C15 R15.2-R15.6)")
     ctx.guarded("R02.9", "header-line", lambda: c15.line(_Remap(ctx, "R02.9")))
+    ctx.rule("R02.10", "the incremental parsers refuse a request only for the enumerated reasons: every path of parse_request_line / parse_headers / parse_body that builds a ParseError is (error, deciding test) in a closed table; propagated failures come from the known sources")
+    ctx.guarded("R02.10", "rejections", lambda: rejections(ctx, "R02.10"))
+
+
+GUARD_ERRORS = {"Overflow", "Underflow", "HeadersWithoutPendingRequest", "BodyWithoutPendingRequest"}
+
+
+def rejections(ctx, rule):
+    """The incremental parsers reject for a closed set of reasons.  Every path of parse_request_line / parse_headers /
+    parse_body (new helpers traversed inline) that *constructs* a ParseError is classified by the error built and by the
+    test that led there; a pair that is not in the table is a new way to refuse a request (or to refuse it with another
+    error), which the grammar does not have.  Propagated errors (`?`) must come from the known sources."""
+    from .conn import _strip_casts
+    facts = ctx.facts
+    bs = facts.const_int("connection::BUFFER_SIZE")
+
+    def cursor_operand(x, depth=0):
+        """The term speaks only about the window the parser was given: its start (*arg2), its end (arg3), constants and the
+        buffer's length -- through any std arithmetic / comparison / Option plumbing (tuple equality, checked_sub, min, ...)."""
+        if depth > 40 or not isinstance(x, tuple) or not x:
+            return False
+        x = _strip_casts(look(x))
+        k = x[0]
+        if k in ("const", "inttuple", "optint", "static", "fnconst") or const_of(x) is not None or x in (("arg", 3), ("arg", 2)):
+            return True
+        if k == "call":
+            if is_call(x, "len") and conn.self_field(look(x[2][0]), "buffer"):
+                return True
+            return x[1].split("::")[0] in ("std", "core") and "io::" not in x[1] and all(cursor_operand(a, depth + 1) for a in x[2])
+        if k in ("bin", "checked"):
+            return all(cursor_operand(a, depth + 1) for a in x[2:] if isinstance(a, tuple))
+        if k in ("un", "cast"):
+            return cursor_operand(x[2] if k == "un" else x[1], depth + 1)
+        if k == "agg":
+            return all(cursor_operand(a, depth + 1) for a in x[3])
+        if k == "tuple":
+            return all(cursor_operand(a, depth + 1) for a in x[1:] if isinstance(a, tuple)) or (len(x) > 1 and isinstance(x[1], tuple) and all(cursor_operand(a, depth + 1) for a in x[1]))
+        if k in ("field", "downcast", "payload", "discr", "deref", "ref"):
+            return cursor_operand(x[1], depth + 1)
+        return False
+
+    def strip_not(t):
+        while t[0] == "un" and t[1] == "Not":
+            t = look(t[2])
+        return t
+
+    def cause(lf):
+        if not lf.conds:
+            return "unconditional"
+        t, c, _bb = lf.conds[-1]
+        t = strip_not(look(t))
+        if conn.is_size_cmp(t) or conn.size_exceeded_truth(lf) is True and any(conn._mentions_lim(x) for x in [t]):
+            return "size"
+        if cursor_operand(t) and any(isinstance(x, tuple) and x in (("arg", 3), ("arg", 2)) for x in subterms(t)):
+            return "cursor"
+        if is_call(t, "is_empty") and conn.self_field(look(t[2][0]), "body_vec"):
+            return "body-leftover"
+        if t[0] == "bin" and any(is_call(_strip_casts(look(x)), "len") and conn.self_field(look(_strip_casts(look(x))[2][0]), "body_vec") for x in (t[2], t[3])):
+            return "body-leftover"
+        d = look(t[1]) if t[0] == "discr" else t
+        for x in subterms(d):
+            if isinstance(x, tuple) and x and is_call(x, conn.PHL):
+                return "header-line-fault"
+        h = head(d)
+        if h[0] == "call" and last_seg(h[1]) in ("checked_add", "checked_sub", "checked_mul") and h[1].split("::")[0] in ("std", "core"):
+            return "arith-guard"
+        if h[0] == "field" and h[3] == "pending_request" and h[2] == conn.HC:
+            return "no-pending"
+        return "other: " + term_s(t)[:90]
+
+    def head(x):
+        """The value whose outcome is tested / propagated, through the Result/Option adapters."""
+        x = look(x)
+        while True:
+            if x[0] == "residual":
+                x = look(x[1])
+            elif x[0] == "call" and last_seg(x[1]) in ("map_err", "branch", "from_residual", "ok_or", "ok_or_else", "into", "from", "is_none", "is_some", "is_ok", "is_err", "and_then", "map", "copied", "cloned") and x[1].split("::")[0] in ("std", "core") and x[2]:
+                x = look(x[2][0])
+            else:
+                return x
+
+    def err_name(e):
+        e = look(e)
+        if e[0] == "agg" and e[2] == "ParseError":
+            i = look(e[3][0])
+            if i[0] == "agg" and i[2] == "HeaderError":
+                j = look(i[3][0])
+                return "HeaderError." + (j[2] if j[0] == "agg" else "?")
+            if i[0] == "agg":
+                return i[2]
+            if any(isinstance(x, tuple) and x and is_call(x, conn.PHL) for x in subterms(i)):
+                return "<header-line-error>"
+            return "?"
+        return "?" + term_s(e)[:40]
+
+    ALLOWED = {
+        ("InvalidRequest", "cursor"), ("HeaderError.SizeLimitExceeded", "cursor"),       # a line that cannot fit the buffer (R04.3)
+        ("SizeLimitExceeded", "size"),                                                   # the declared length exceeds the limit (R04.1)
+        ("<header-line-error>", "header-line-fault"),                                    # a header fault other than the tolerated ones (R02.3)
+        ("InvalidRequest", "body-leftover"),                                             # internal guard of parse_body
+    }
+    PROP_SOURCES = ("checked_add", "checked_sub", "shift_buffer_left", "try_from", "parse_header_line", "as_mut", "as_ref", "ok_or", "take")
+    n = 0
+    for name in (conn.PARSE_RL, conn.PARSE_H, conn.PARSE_B):
+        if not facts.has_fn(name):
+            continue
+        fn, lv = leaves(ctx, name)
+        seen = set()
+        for lf in lv:
+            rk = ret_kind(lf)
+            if rk is None or rk[0] == "Ok":
+                continue
+            if rk[0] == "Err":
+                e_ = look(rk[1])
+                i_ = look(e_[3][0]) if e_[0] == "agg" and e_[2] == "ParseError" and e_[3] else None
+                if i_ is not None and i_[0] == "field" and i_[1][0] == "downcast" and i_[1][2] == "Err" and look(i_[1][1])[0] == "call" and not is_call(look(i_[1][1]), conn.PHL):
+                    # `match f(..) { Err(e) => return Err(ParseError(e)), .. }`: the `?` written out -- f's failure handed on
+                    x = head(i_[1][1])
+                    ok = x[0] == "call" and last_seg(x[1]) in PROP_SOURCES
+                    key = "rejections|%s|handed-on|%s" % (name.rsplit("::", 1)[-1], last_seg(x[1]) if x[0] == "call" else "?")
+                    if not (key in seen and ok):
+                        seen.add(key)
+                        n += 1
+                        ctx.ob(rule, key, ok, "%s hands on the failure of %s wrapped in ParseError" % (name.rsplit("::", 1)[-1], term_s(x)[:60]), fn.loc(lf.bb))
+                    continue
+                en = err_name(rk[1])
+                cz = cause(lf)
+                ok = (en, cz) in ALLOWED or (en in GUARD_ERRORS and (cz in ("cursor", "arith-guard", "no-pending")))
+                key = "rejections|%s|%s|%s" % (name.rsplit("::", 1)[-1], en, cz[:40])
+                if key in seen and ok:
+                    continue
+                seen.add(key)
+                n += 1
+                ctx.ob(rule, key, ok, "%s builds ParseError(%s) after the test `%s`: a request is refused only for a line that cannot fit, a declared length above the limit, a header-line fault, or an internal guard" % (name.rsplit("::", 1)[-1], en, cz), fn.loc(lf.bb))
+            elif rk[0] == "prop":
+                src = rk[1][2][0]
+                x = head(src)
+                inner = [x[1]] if x[0] == "call" else ["pending_request" if (x[0] == "field" and x[3] == "pending_request") else "?" + term_s(x)[:40]]
+                ok = (x[0] == "call" and last_seg(x[1]) in PROP_SOURCES) or (x[0] == "field" and x[3] == "pending_request" and x[2] == conn.HC)
+                key = "rejections|%s|propagated|%s" % (name.rsplit("::", 1)[-1], ",".join(sorted({last_seg(c_) for c_ in inner}))[:60])
+                if key in seen and ok:
+                    continue
+                seen.add(key)
+                n += 1
+                ctx.ob(rule, key, ok, "%s propagates the failure of %s" % (name.rsplit("::", 1)[-1], sorted({last_seg(c_) for c_ in inner})), fn.loc(lf.bb))
+    ctx.ob(rule, "rejections|floor", n >= 8, "%d kinds of rejecting path classified in the three parsers (floor 8)" % n)
 
 
 def order(ctx):
-    fn, lv = leaves(ctx, "request::RequestLine::try_from")
+    fn, lv = leaves(ctx, "request::RequestLine::try_from", lower=True)
     full = 0
     for lf in lv:
         if lf.kind != "return":
@@ -101,6 +247,12 @@ def order(ctx):
             src = res[1] if res[0] == "residual" else None
             good = ok_prefix and src is not None and is_call(strip_map_err(src), seq[-1]) if seq else False
             ctx.ob("R02.1", "order|reject-after-%d" % len(seq), good, "a failure of step %d (%s) is returned immediately, before any later element is looked at" % (len(seq), seq[-1].split("::")[-2] if seq else "?"), fn.loc(lf.bb))
+        elif rk[0] == "Err" and decoded_here and seq and seq[-1] not in ORDER and ok_prefix and look(rk[1])[0] == "agg" and look(rk[1])[2] == "InvalidUri" and any(result_test(t_, c_, lambda y: is_call(y, "from_utf8")) == "err" for (t_, c_, _b) in lf.conds):
+            # the URI decoded here with the failure mapped by a closure (traversed): the decoding step's own error
+            ctx.ob("R02.1", "order|reject-after-%d" % len(seq), True, "a failure of the URI decoding is returned immediately as InvalidUri", fn.loc(lf.bb))
+        elif rk[0] == "Err" and seq == [ORDER[0]] and look(rk[1])[0] == "field" and look(rk[1])[1][0] == "downcast" and look(rk[1])[1][2] == "Err" and is_call(look(look(rk[1])[1][1]), ORDER[0]):
+            # `split(..).and_then(|parts| ..)`: the failure of the split handed on as it is
+            ctx.ob("R02.1", "order|reject-after-1", True, "a failure of step 1 (the split) is returned as it is, before any element is looked at", fn.loc(lf.bb))
         else:
             ctx.fail("R02.1", "order|other-return", "RequestLine::try_from has a return that is neither Ok nor a propagated step failure", fn.loc(lf.bb))
     extra = 1 if any(last_seg(t["callee"].get("path") or "") == "from_utf8" for _bb, t in fn.calls()) else 0
@@ -334,6 +486,12 @@ def incremental_tolerated(ctx, rule):
             src = rk[1][2][0]
             if src[0] == "residual" and not any(is_call(s, conn.PHL) for s in subterms(src) if isinstance(s, tuple)):
                 return None
+        if rk[0] == "Err":
+            # the same guard written out (`let Some(i) = a.checked_add(b) else { return Err(ParseError(Overflow)) }`)
+            e = look(rk[1])
+            i = look(e[3][0]) if e[0] == "agg" and e[2] == "ParseError" and e[3] else None
+            if i is not None and i[0] == "agg" and i[2] in GUARD_ERRORS and not i[3]:
+                return None
         return False
 
     def returns_err_of(lf):
@@ -353,6 +511,25 @@ def incremental_tolerated(ctx, rule):
 
     sub = [lf for lf in lv if any(e[0] == "call" and e[3] == conn.PHL for e in lf.events)]
     tolerated_set(ctx, rule, "incremental", fn, sub, is_phl, continues, returns_err_of)
+    # ... and nothing else writes them: a line that reaches the header map another way (a fast path that files it as a
+    # custom entry by its first byte, say) is not judged by the header rules at all
+    n_mut = 0
+    for lf in lv:
+        for e in lf.events:
+            if e[0] != "call" or e[3] == conn.PHL or e[3].startswith(("std::mem::", "core::mem::")):
+                continue
+            for a in e[4][2]:
+                while a[0] == "cast" or (a[0] == "deref" and a[1][0] == "ref"):
+                    a = a[1][1] if a[0] == "deref" else a[1]
+                if a[0] == "ref" and a[2]:
+                    x = look(a[1])
+                    while x[0] == "mut":
+                        x = look(x[1])
+                    hs = [s_ for s_ in subterms(x) if isinstance(s_, tuple) and s_ and s_[0] == "field" and s_[3] == "headers" and s_[2] == "request::Request"]
+                    if hs and conn.pending_req(x) and last_seg(e[3]) not in ("as_mut", "as_ref", "deref", "deref_mut", "borrow_mut"):
+                        n_mut += 1
+                        ctx.fail(rule, "incremental|headers-written-only-by-line-parser|%s" % e[3], "the pending request's headers are handed mutably to %s in parse_headers: header lines must go through Headers::parse_header_line (and nothing else writes the map)" % e[3], fn.loc(e[1]))
+    ctx.ob(rule, "incremental|headers-written-only-by-line-parser", n_mut == 0, "in parse_headers the pending request's headers are mutated only by Headers::parse_header_line (or taken out whole and put back)", fn.loc(0))
     # the Headers the line is parsed into are those of the pending request
     # ... in place: the receiver *is* that field (a copy taken out with mem::take / clone and parsed into must come back on
     # every path that goes on -- also the one that ignores the line -- or what was gathered before is lost)
@@ -378,7 +555,7 @@ def incremental_tolerated(ctx, rule):
 
 
 def uri(ctx):
-    fn, lv = leaves(ctx, "request::Uri::try_from")
+    fn, lv = leaves(ctx, "request::Uri::try_from", lower=True)
     seen = set()
     S = Shapes(ctx.facts)
 
@@ -406,7 +583,13 @@ def uri(ctx):
             empty = conn.atom_truth(lf, eq_empty)
             if empty is None:
                 empty = conn.atom_truth(lf, lambda t: is_call(t, "is_empty") and payload_of(t[2][0]) is not None and is_from_utf8_of_input(payload_of(t[2][0])))
-        utf8_err = any(result_test(t, c, lambda y: is_call(y, "from_utf8") and look(y[2][0]) == ("arg", 1)) == "err" for (t, c, _b) in lf.conds)
+        def decoding(y):
+            # from_utf8(input), also seen through `.map(Uri::new)` (map keeps the failure as it is)
+            if is_call(y, "map") and len(y[2]) == 2 and look(y[2][1]) == ("fnconst", "request::Uri::new"):
+                y = look(y[2][0])
+            return is_call(y, "from_utf8") and look(y[2][0]) == ("arg", 1)
+
+        utf8_err = any(result_test(t, c, decoding) == "err" for (t, c, _b) in lf.conds)
         if empty:
             seen.add("empty")
             e = look(rk[1]) if rk[0] == "Err" else None
@@ -424,6 +607,10 @@ def uri(ctx):
         elif rk[0] == "Ok":
             seen.add("ok")
             v = look(rk[1])
+            pm = payload_of(v)
+            if pm is not None and is_call(pm, "map") and len(pm[2]) == 2 and look(pm[2][1]) == ("fnconst", "request::Uri::new"):
+                # from_utf8(bytes).map(Uri::new): the Ok payload is Uri::new(the decoded text)
+                v = ("call", "request::Uri::new", (("field", ("downcast", look(pm[2][0]), "Ok"), None, "0"),), pm[3] if len(pm) > 3 else 0)
             ok = is_call(v, "request::Uri::new") or (v[0] == "agg" and v[1] == "request::Uri")
             src = None
             if ok:
